@@ -506,6 +506,8 @@ class OverhangFilter(Module):
         size = [self.domain.nelx, self.domain.nely, max(self.domain.nelz, 1)]
 
         dir_layer = int(np.argmax(abs(self.direction)))  # The axis of the print direction
+        if size[dir_layer] < 2:  # Only a base layer, which is directly transferred
+            return dxprint
         dx_layer = int(np.sign(self.direction[dir_layer]))  # Iteration direction
         ind_layer = size[dir_layer]-1 if dx_layer >= 0 else 0  # Starting index (="ending" in response)
 
